@@ -21,13 +21,15 @@ fn thread_state(tid: i64) -> char {
 }
 
 struct RoundOut {
+    unparks: u64,
+    lock_state: Option<String>,
     writer_ops: u64,
     reader_ops: u64,
     parks: u64,
     blocked: Option<String>,
 }
 
-fn hammer_round(mode: u8, nkeys: u64, writers: usize, readers: usize, writer_ops: u64, seed: u64) -> RoundOut {
+fn hammer_round(mode: u8, nkeys: u64, writers: usize, readers: usize, writer_ops: u64, seed: u64, pest: bool) -> RoundOut {
     let map: Arc<UMap> = Arc::new(HashMap::with_capacity_and_hasher(64, HB::new(mode)));
     {
         let g = map.guard();
@@ -41,9 +43,32 @@ fn hammer_round(mode: u8, nkeys: u64, writers: usize, readers: usize, writer_ops
     let tids: Arc<Vec<AtomicI64>> = Arc::new((0..writers + readers).map(|_| AtomicI64::new(0)).collect());
     let done: Arc<Vec<AtomicBool>> = Arc::new((0..writers).map(|_| AtomicBool::new(false)).collect());
     let mut handles = Vec::new();
+    // `park` may return spuriously; a pest thread makes that happen all the time by handing
+    // unpark tokens to the writers (stopped before the blocked-state samples are taken)
+    let writer_threads: Arc<std::sync::Mutex<Vec<std::thread::Thread>>> = Arc::new(std::sync::Mutex::new(Vec::new()));
+    let pest_stop = Arc::new(AtomicBool::new(false));
+    let unparks = Arc::new(AtomicU64::new(0));
+    let pest_handle = if pest {
+        let (wt, ps, un) = (writer_threads.clone(), pest_stop.clone(), unparks.clone());
+        Some(std::thread::spawn(move || {
+            while !ps.load(Ordering::Relaxed) {
+                for t in wt.lock().unwrap().iter() {
+                    t.unpark();
+                    un.fetch_add(1, Ordering::Relaxed);
+                }
+                for _ in 0..2000 {
+                    std::hint::spin_loop();
+                }
+            }
+        }))
+    } else {
+        None
+    };
     for w in 0..writers {
         let (m, p, t, d) = (map.clone(), progress.clone(), tids.clone(), done.clone());
+        let wt = writer_threads.clone();
         handles.push(std::thread::spawn(move || {
+            wt.lock().unwrap().push(std::thread::current());
             t[w].store(unsafe { libc::syscall(libc::SYS_gettid) } as i64, Ordering::SeqCst);
             hook::set_role(hook::ROLE_DELAY, w as u16, seed ^ w as u64);
             let mut rng = Rng::new(seed ^ (w as u64) << 20);
@@ -81,6 +106,9 @@ fn hammer_round(mode: u8, nkeys: u64, writers: usize, readers: usize, writer_ops
     loop {
         if done.iter().all(|d| d.load(Ordering::SeqCst)) {
             break;
+        }
+        if t0.elapsed().as_secs() >= 5 {
+            pest_stop.store(true, Ordering::SeqCst);
         }
         if t0.elapsed().as_secs() >= 6 {
             // candidate: confirm by two samples one second apart
@@ -121,16 +149,36 @@ fn hammer_round(mode: u8, nkeys: u64, writers: usize, readers: usize, writer_ops
         std::thread::sleep(std::time::Duration::from_millis(2));
     }
     stop.store(true, Ordering::SeqCst);
+    pest_stop.store(true, Ordering::SeqCst);
+    if let Some(h) = pest_handle {
+        let _ = h.join();
+    }
     let writer_done: u64 = (0..writers).map(|w| progress[w].load(Ordering::SeqCst)).sum();
     let reader_done: u64 = (writers..writers + readers).map(|r| progress[r].load(Ordering::SeqCst)).sum();
+    let mut lock_state = None;
     if blocked.is_none() {
         for h in handles {
             let _ = h.join();
         }
+        // nobody is inside the map any more: every tree bin's lock must be free
+        let g = map.guard();
+        let d = map.verif_dump(&g);
+        for b in d.bins.iter() {
+            if let flurry::verif::BinDump::Tree { locked, lock_state: ls, waiter_null, .. } = b {
+                if *locked || *ls != 0 || !*waiter_null {
+                    lock_state = Some(format!("after every thread has left the map a tree bin has mutex locked={locked} lock_state={ls} waiter_null={waiter_null}"));
+                }
+            }
+        }
+        if lock_state.is_some() {
+            drop(d);
+            drop(g);
+            std::mem::forget(map);
+        }
     } else {
         std::mem::forget(map);
     }
-    RoundOut { writer_ops: writer_done, reader_ops: reader_done, parks: hook::site_hit_count(fvf::PRE_PARK) - parks0, blocked }
+    RoundOut { unparks: unparks.load(Ordering::SeqCst), lock_state, writer_ops: writer_done, reader_ops: reader_done, parks: hook::site_hit_count(fvf::PRE_PARK) - parks0, blocked }
 }
 
 pub fn run(ctx: &Ctx) -> Outcome {
@@ -151,7 +199,17 @@ pub fn run(ctx: &Ctx) -> Outcome {
         let writers = rng.range(1, 3) as usize;
         let readers = rng.range(1, 4) as usize;
         hook::set_focus_site(*rng.pick(&[0, fvf::WIN_TREE_READ_LOCKED, fvf::EV_WAITER_SET, 0]));
-        let r = hammer_round(mode, nkeys, writers, readers, ctx.q(3000, 20000), rng.next());
+        let pest = i % 2 == 0;
+        let r = hammer_round(mode, nkeys, writers, readers, ctx.q(3000, 20000), rng.next(), pest);
+        out.add("hammer_foreign_unparks", r.unparks);
+        if let Some(ls) = &r.lock_state {
+            out.violate(
+                "c11/hammer/lock-state",
+                format!("{ls} [hasher {}, {nkeys} keys, {writers} writers, {readers} readers, foreign unparks {}, round {}]", mode_name(mode), pest, i - 1),
+                Json::obj().with("check", Json::s("c11")).with("part", Json::s("hammer")).with("seed", Json::u(ctx.seed)).with("shard", Json::u(ctx.shard)).with("round", Json::u(i - 1)),
+            );
+            break;
+        }
         out.evaluations += 1;
         out.add("hammer_rounds", 1);
         out.add("hammer_writer_calls", r.writer_ops);
